@@ -132,6 +132,14 @@ def spec_e2e(o):
     if o.get("err"):
         return None          # an e2e run that could not be set up is recorded as skipped, never as a violation
     ts, p = o["ts"], o["per"] // o["rate"]
+    if o.get("coarse"):
+        n = len(ts)
+        for k in sorted({k for k in (1000, 2000, 3000, n - 1) if 400 <= k < n}):
+            for i in range(0, n - k):
+                if ts[i + k] - ts[i] < (k - E2E_SLACK) * p - 20 * 10 ** 6:
+                    return ("sx %s --rate %s: %d consecutive probes were seen on the wire within %d ns; the rate allows no "
+                            "less than %d ns" % (o["args"], o["rate_str"], k + 1, ts[i + k] - ts[i], (k - SLACK) * p))
+        return None
     for i in range(len(ts)):
         for j in range(i + 1, len(ts)):
             if ts[j] - ts[i] < (j - i - E2E_SLACK) * p:
@@ -195,6 +203,12 @@ for _r, _c, _w in (("1/m", 1, 60 * 10 ** 9), ("21/20s", 21, 20 * 10 ** 9)):
                       "min_probes": 1})
 IDX_SLOW = [len(E2E_SPECS) - 2, len(E2E_SPECS) - 1]
 IDX_FAST = list(range(IDX_CHUNKS + 1))
+# per-frame intervals below 50 us: 4096 ARP probes (a /20) must take (4096-1-b)*W/N; only long windows are judged, with
+# 20 ms allowed for timestamp batching at the capture side (an unpaced run puts them on a veth within ~10-30 ms)
+for _r, _c in (("25000/s", 25000), ("50000/s", 50000)):
+    E2E_SPECS.append({"cmd": "arp (high rate)", "rate_str": _r, "rate": _c, "per": 10 ** 9, "iface": "v1", "match": "arp",
+                      "args": ["arp", "-i", "v0", "10.77.16.0/20"], "coarse": True, "min_probes": 500, "idle": "400ms"})
+IDX_HIGH = [len(E2E_SPECS) - 2, len(E2E_SPECS) - 1]
 
 
 def e2e_runs(ctx, idxs, tag=""):
@@ -237,7 +251,7 @@ def e2e_runs(ctx, idxs, tag=""):
             args = [arp if a == "ARP" else a for a in sp["args"]]
             shown = " ".join(a if len(a) < 60 else a[:40] + "..." for a in sp["args"])
             o = {"kind": "e2e", "class": "e2e", "id": i % len(E2E_SPECS), "cmd": sp["cmd"], "rate_str": sp["rate_str"],
-                 "rate": sp["rate"], "per": sp["per"], "args": shown, "ts": []}
+                 "rate": sp["rate"], "per": sp["per"], "args": shown, "ts": [], "coarse": bool(sp.get("coarse"))}
             try:
                 line = cap.stdout.readline()
                 if line.strip() != "ready":
@@ -396,6 +410,7 @@ def deep_stage(ctx, with_fast=True):
     with ThreadPoolExecutor(max_workers=6) as ex:
         jobs["slow"] = ex.submit(slow_stage, ctx)
         jobs["quiet"] = ex.submit(quiet_e2e, ctx)
+        jobs["high"] = ex.submit(e2e_runs, ctx, IDX_HIGH, "h")
         jobs["slowpkt"] = ex.submit(e2e_runs, ctx, IDX_SLOW[:1], "s")
         jobs["slowpkt2"] = ex.submit(e2e_runs, ctx, IDX_SLOW[1:], "t")
         if with_fast:
@@ -533,7 +548,7 @@ def run(ctx):
                       nontrivial=bool(o.get("ops") or o.get("scans") or o.get("sent")),
                       sample={k: (v[:6] if isinstance(v, list) else v) for k, v in o.items() if k not in ("kind",)})
     if os.path.exists(os.path.join(verif.HBIN, "c15")):
-        erows = e2e_runs(ctx, [(ctx.seed + d) % N_ARP_SPECS for d in (0, 3)] + [IDX_CHUNKS]) if quick else deep_stage(ctx)
+        erows = e2e_runs(ctx, [(ctx.seed + d) % N_ARP_SPECS for d in (0, 3)] + [IDX_CHUNKS, IDX_HIGH[0]]) if quick else deep_stage(ctx)
         srows = [o for o in erows if o["kind"] == "slow"]
         qrows = [o for o in erows if o["kind"] == "quiet"]
         erows = [o for o in erows if o["kind"] == "e2e"]
